@@ -268,6 +268,24 @@ class Gen:
             self.p = dict(self.p, arops=[o for o in self.p.get("arops", AR) if o not in ("mul", "div", "mod")])
         nb = r.choice([1, 1, 2])
         blocks = [{"name": "c%d" % i, "stmts": self.stmts(fs, 2, 1, self.p.get("maxstmts", 4))} for i in range(nb)]
+        if r.random() < self.p.get("islands", 0.06):
+            # several independent groups of fields, each established by its own statement, then statements that link
+            # them one after the other: every link merges two rand sets that already exist
+            n = r.choice([5, 6, 6])
+            sg = bool(self.sall)
+            fs = [{"name": "f%d" % i, "w": 2, "s": sg, "rand": True, "val": 0, "enums": None} for i in range(n)]
+            order = list(range(n))
+            r.shuffle(order)
+            islands = [order[i:i + 2] for i in range(0, n, 2)]
+            st = []
+            for isl in islands:
+                if len(isl) == 2:
+                    st.append({"k": "expr", "e": B(r.choice(["lt", "le", "ne"]), F(isl[0]), F(isl[1]))})
+                else:
+                    st.append({"k": "expr", "e": B("le", F(isl[0]), I(1))})
+            for a_, b_ in zip(islands, islands[1:]):
+                st.append({"k": "expr", "e": B(r.choice(["eq", "le", "eq"]), F(r.choice(a_)), F(r.choice(b_)))})
+            blocks = [{"name": "c0", "stmts": st}]
         calls = []
         for _ in range(r.randint(1, self.p.get("calls", 2))):
             inline = self.stmts(fs, 1, 1, 2) if r.random() < self.p.get("inline", 0.3) else None
